@@ -78,12 +78,15 @@ Proof.
   rewrite spawn_task_eq, groups_ret, groups_spawned. reflexivity.
 Qed.
 
+Lemma groups_block s t c : groups (fst (blocked (set_ctl s t c))) = groups s.
+Proof. reflexivity. Qed.
+
 Lemma groups_op_start s0 t g : groups (fst (puppet_op s0 t (AStart t g))) =
   if group_active s0 g then upd (groups s0) g (gjoin (ntask s0) (groups s0 g)) else groups s0.
 Proof.
   unfold puppet_op. rewrite group_active_begin. destruct (group_active s0 g); cbn [negb]; [|now rewrite groups_ret].
-  rewrite new_fut_eq, spawn_task_eq. cbn [blocked fst set_running set_ctl upd_task set_tasks groups].
-  rewrite groups_suspend_on, groups_spawned. reflexivity.
+  rewrite new_fut_eq. cbv beta iota. rewrite spawn_task_eq. cbv beta iota.
+  rewrite groups_block, groups_suspend_on, groups_spawned. reflexivity.
 Qed.
 
 (* AGroupExit: the body exception (if any) is recorded first, then the __aexit__ code runs *)
@@ -99,8 +102,9 @@ Proof.
   unfold puppet_op. set (s := begin_act s0 t). cbn zeta.
   match goal with |- context [match g_tasks (groups ?x g) with _ => _ end] => set (s1 := x) end.
   assert (E1 : groups s1 = groups (after_body_exc s0 t g)).
-  { unfold s1, after_body_exc. change (k_held (tasks s t)) with (k_held (tasks s0 t)).
-    destruct (k_held (tasks s0 t)) as [e|]; [|reflexivity].
+  { unfold s1, after_body_exc.
+    assert (Eh : k_held (tasks s t) = k_held (tasks s0 t)) by (unfold s, begin_act; tcase t t; [reflexivity|contradiction]).
+    rewrite Eh. destruct (k_held (tasks s0 t)) as [e|]; [|reflexivity].
     destruct (is_cancel e); [now rewrite groups_scope_cancel|].
     cbn [upd_group set_groups groups]. now rewrite groups_scope_cancel. }
   apply (grel_of_groups _ s1); [exact E1|].
@@ -150,3 +154,132 @@ Proof.
     destruct (f_st (futs s4 f)); rewrite ?fc_groups; congruence.
 Qed.
 
+
+(* ---------------- per-group case analysis of one step ---------------- *)
+Definition grec (x x' : group) : Prop :=
+  g_ever x' = g_ever x /\ g_tasks x' = g_tasks x /\ g_scope x' = g_scope x /\ g_excs x' = g_excs x /\
+  g_entered x' = g_entered x /\ (g_left x' = g_left x \/ (g_left x' = true /\ g_tasks x = [])).
+
+Lemma grel_grec s s' g : grel s s' g -> grec (groups s g) (groups s' g).
+Proof. intros [_ H]. exact H. Qed.
+
+Lemma grel_other s s' g g' : grel s s' g -> g' <> g -> groups s' g' = groups s g'.
+Proof. intros [H _]. apply H. Qed.
+
+Lemma wake_ok_step s t : Inv s -> In (HStep t) (ready s) -> wake_ok (pop s (HStep t)) t None.
+Proof.
+  intros [M Hr] Hin. destruct (M_pop s (HStep t) M Hin) as [M1 [Hnt _]].
+  destruct (k_step s (m_k s M) t Hin) as [H1 [H2 [H3 H4]]].
+  constructor; auto. apply Hnt. cbn. auto.
+Qed.
+
+Lemma wake_ok_wake s t f : Inv s -> In (HWake t f) (ready s) -> wake_ok (pop s (HWake t f)) t (Some f).
+Proof.
+  intros [M Hr] Hin. destruct (M_pop s (HWake t f) M Hin) as [M1 [Hnt _]].
+  destruct (k_wake s (m_k s M) t f Hin) as [H1 H2]. destruct (k_w1 s (m_k s M) t f H1) as [H3 [H4 [H5 [H6 H7]]]].
+  constructor; auto. apply Hnt. cbn. auto.
+Qed.
+
+Definition body_exc_case (s s' : st) (o : op) (g : gid) : Prop :=
+  exists t e, o = AGroupExit t g /\ idle s t = true /\ k_held (tasks s t) = Some e /\ is_cancel e = false /\
+              grec (add_exc 0 e (groups s g)) (groups s' g).
+
+Definition task_done_case (s s' : st) (o : op) (g : gid) : Prop :=
+  exists t, o = ARun (HTaskDone t) /\ In (HTaskDone t) (ready s) /\ k_group (tasks s t) = Some g /\
+    (groups s' g = td_grp t (groups s g) \/
+     exists e, k_done (tasks s t) = Some (OExc e) /\ groups s' g = add_exc t e (td_grp t (groups s g))).
+
+Definition spawn_case (s s' : st) (o : op) (g : gid) : Prop :=
+  exists t, (o = ASpawn t g \/ o = AStart t g) /\ idle s t = true /\ group_active s g = true /\
+            groups s' g = gjoin (ntask s) (groups s g).
+
+Definition aexit_case (s s' : st) (o : op) (g : gid) : Prop :=
+  grec (groups s g) (groups s' g) /\
+  ((exists t, o = AGroupExit t g /\ idle s t = true) \/
+   (exists t h w exc, o = ARun h /\ In h (ready s) /\ (h = HStep t \/ exists f, h = HWake t f) /\
+      (k_ctl (tasks s t) = CAexitWait g w exc \/ k_ctl (tasks s t) = CAexitCk g w exc))).
+
+Theorem step_group_cases s o g : reach s -> let s' := fst (step s o) in
+  groups s' g = groups s g \/
+  (exists t, o = AGroupNew t /\ idle s t = true /\ g = ngroup s /\
+             groups s' g = mkGroup (nscope s) false [] [] None [] false) \/
+  (exists t, o = AGroupEnter t g /\ groups s' g = gr_entered true (groups s g)) \/
+  spawn_case s s' o g \/ body_exc_case s s' o g \/ aexit_case s s' o g \/ task_done_case s s' o g.
+Proof.
+  intros R. cbn zeta. pose proof (reach_inv s R) as I0.
+  destruct (touches_groups s o) eqn:Et; [|left; now rewrite step_groups_frame].
+  unfold step. destruct (actor o) as [t|] eqn:Ea.
+  - destruct (idle s t) eqn:Ei; cbn [negb]; [|left; reflexivity].
+    destruct o; try discriminate; cbn in Ea; injection Ea as <-.
+    + (* AGroupNew *) rewrite groups_op_group_new. unfold upd. destruct (Nat.eqb_spec g (ngroup s)) as [->|Hg]; [|left; reflexivity].
+      right; left. exists t0. auto.
+    + (* AGroupEnter *) rewrite groups_op_group_enter. destruct (g_entered (groups s g0)); [left; reflexivity|].
+      unfold upd. destruct (Nat.eqb_spec g g0) as [->|Hg]; [|left; reflexivity]. right; right; left. exists t0. auto.
+    + (* AGroupExit *) pose proof (op_group_exit_grel s t0 g0) as Hrel.
+      destruct (Nat.eq_dec g g0) as [->|Hg].
+      * apply grel_grec in Hrel. unfold after_body_exc in Hrel.
+        assert (Hax : aexit_case s (fst (puppet_op s t0 (AGroupExit t0 g0))) (AGroupExit t0 g0) g0 ->
+                      aexit_case s (fst (puppet_op s t0 (AGroupExit t0 g0))) (AGroupExit t0 g0) g0) by auto.
+        destruct (k_held (tasks s t0)) as [e|] eqn:Eh;
+          [|right; right; right; right; right; left; split; [exact Hrel|left; exists t0; auto]].
+        destruct (is_cancel e) eqn:Ec; [right; right; right; right; right; left; split; [exact Hrel|left; exists t0; auto]|].
+        right; right; right; right; left. exists t0, e. cbn [upd_group set_groups groups] in Hrel. rewrite upd_same in Hrel. auto.
+      * left. rewrite (grel_other _ _ _ _ Hrel Hg). unfold after_body_exc.
+        destruct (k_held (tasks s t0)) as [e|]; [|reflexivity]. destruct (is_cancel e); [reflexivity|].
+        cbn [upd_group set_groups groups]. now apply upd_other.
+    + (* ASpawn *) destruct (group_active s g0) eqn:Eact; [|left; now rewrite groups_op_spawn, Eact].
+      destruct (Nat.eq_dec g g0) as [->|Hg]; [|left; rewrite groups_op_spawn, Eact; now apply upd_other].
+      right; right; right; left. exists t0. refine (conj (or_introl eq_refl) (conj Ei (conj Eact _))).
+      rewrite groups_op_spawn, Eact. apply upd_same.
+    + (* AStart *) destruct (group_active s g0) eqn:Eact; [|left; now rewrite groups_op_start, Eact].
+      destruct (Nat.eq_dec g g0) as [->|Hg]; [|left; rewrite groups_op_start, Eact; now apply upd_other].
+      right; right; right; left. exists t0. refine (conj (or_intror eq_refl) (conj Ei (conj Eact _))).
+      rewrite groups_op_start, Eact. apply upd_same.
+  - destruct o; try discriminate.
+    unfold run_handle. destruct (existsb (handle_eqb h) (ready s)) eqn:Eh; cbn [negb]; [|left; reflexivity].
+    apply existsb_handle in Eh. rewrite pop_eq_frame.
+    destruct h as [t|t f|c|t|f tm|c tm]; try discriminate.
+    + (* HStep of a task inside __aexit__ *)
+      cbn in Et. pose proof (wake_ok_step s t I0 Eh) as W.
+      change (k_ctl (tasks s t)) with (k_ctl (tasks (pop s (HStep t)) t)) in Et.
+      destruct (k_ctl (tasks (pop s (HStep t)) t)) as [| |k|f tm|g0 ws exc|g0 c exc|g0 child f|child c e wf|h wf|] eqn:Ec; try discriminate.
+      * pose proof (resume_aexit_wait_grel _ t None g0 ws exc Ec) as Hrel.
+        destruct (Nat.eq_dec g g0) as [->|Hg];
+          [right; right; right; right; right; left; split; [apply (grel_grec _ _ _ Hrel)|right; exists t, (HStep t), ws, exc; auto]|].
+        left. apply (grel_other _ _ _ _ Hrel Hg).
+      * pose proof (resume_aexit_ck_grel _ t None g0 c exc W Ec) as Hrel.
+        destruct (Nat.eq_dec g g0) as [->|Hg];
+          [right; right; right; right; right; left; split; [apply (grel_grec _ _ _ Hrel)|right; exists t, (HStep t), c, exc; auto]|].
+        left. apply (grel_other _ _ _ _ Hrel Hg).
+    + cbn in Et. pose proof (wake_ok_wake s t f I0 Eh) as W.
+      change (k_ctl (tasks s t)) with (k_ctl (tasks (pop s (HWake t f)) t)) in Et.
+      destruct (k_ctl (tasks (pop s (HWake t f)) t)) as [| |k|f0 tm|g0 ws exc|g0 c exc|g0 child f0|child c e wf|h wf|] eqn:Ec; try discriminate.
+      * pose proof (resume_aexit_wait_grel _ t (Some f) g0 ws exc Ec) as Hrel.
+        destruct (Nat.eq_dec g g0) as [->|Hg];
+          [right; right; right; right; right; left; split; [apply (grel_grec _ _ _ Hrel)|right; exists t, (HWake t f), ws, exc; eauto 8]|].
+        left. apply (grel_other _ _ _ _ Hrel Hg).
+      * pose proof (resume_aexit_ck_grel _ t (Some f) g0 c exc W Ec) as Hrel.
+        destruct (Nat.eq_dec g g0) as [->|Hg];
+          [right; right; right; right; right; left; split; [apply (grel_grec _ _ _ Hrel)|right; exists t, (HWake t f), c, exc; eauto 8]|].
+        left. apply (grel_other _ _ _ _ Hrel Hg).
+    + (* HTaskDone *)
+      cbn [fst]. set (s1 := pop s (HTaskDone t)).
+      destruct (k_group (tasks s t)) as [g0|] eqn:Eg.
+      * destruct I0 as [M0 _].
+        assert (Hoc : forall e, k_done (tasks s1 t) = Some (OCanc e) -> is_cancel e = true).
+        { intros e. apply (c_oc s (m_c s M0) t e). }
+        pose proof (run_task_done_groups s1 t g0 Eg Hoc) as H.
+        pose proof (tdcore_groups s1 t g0 g) as [T1 [T2 [T3 [T4 T5]]]].
+        destruct (Nat.eq_dec g g0) as [->|Hg].
+        -- right; right; right; right; right; right. exists t. refine (conj eq_refl (conj Eh (conj Eg _))).
+           assert (Etd : groups (tdcore s1 t g0) g0 = td_grp t (groups s g0)).
+           { unfold tdcore. cbn [upd_task set_tasks upd_group set_groups groups]. now rewrite upd_same. }
+           destruct H as [H|[e [He H]]]; [left; now rewrite H|right]. exists e. split; [exact He|].
+           rewrite H. cbn [upd_group set_groups groups]. now rewrite upd_same, Etd.
+        -- left. assert (Etd : groups (tdcore s1 t g0) g = groups s g).
+           { unfold tdcore. cbn [upd_task set_tasks upd_group set_groups groups]. now apply upd_other. }
+           destruct H as [H|[e [He H]]]; rewrite H; [exact Etd|].
+           cbn [upd_group set_groups groups]. rewrite upd_other; [exact Etd|exact Hg].
+      * left. rewrite run_task_done_eq. cbn zeta. change (tasks (set_running s1 None) t) with (tasks s t).
+        now rewrite Eg.
+Qed.
